@@ -17,6 +17,7 @@
 import ClockBound.Rs.DictShm
 import ClockBound.Rs.Embed
 import ClockBound.Model.HeaderProg
+import ClockBound.Model.WriterNewProg
 namespace ClockBound.Rs.EmbedShm
 open ClockBound ClockBound.Rs ClockBound.Rs.DictShm
 
@@ -56,7 +57,7 @@ def rawInp (inp : Nat → Nat) : Nat → Value := fun k => .int .infer (inp k)
     segment (fields sorted by name, as all struct values) -/
 def writerValue (segsize : Nat) : Value :=
   .struct "ShmWriter" [
-    ("addr", .ext "ptr:c_void" [.str "segment"]),
+    ("addr", addr "segment"),
     ("ceb", ptrCeb),
     ("generation", ptrA16 "generation"),
     ("segsize", .int .usize segsize),
@@ -165,6 +166,58 @@ def openAnswers (lim : Option Nat) (fd : Nat) : FileState → List Value
     [.int .infer fd, .int .infer (readRet bs), headerValue (parseHeader bs)] ++
     (if mapFails lim (parseHeader bs).segsize then [addr "MAP_FAILED", .int .infer ENOMEM] else [addr "segment"])
 
+/-! ### `ShmWriter::new` (`Properties/CodeTieWriterNew.lean`) -/
+
+def okUnit : Value := .enumv "Ok" [.tuple []]
+
+/-- the operations of `Crash.newOps` as the events the dictionary logs (every operation succeeding); the
+    role of a header write is not part of the event: order and content are -/
+def opValue (path parent : Value) : Crash.Op → Value
+  | .createDirAll => evFs "create_dir_all" [parent] okUnit
+  | .create => evFs "create" [path] (.enumv "Ok" [fileObj])
+  | .writeU32 _ v => evFs "write_u32" [.int .u32 v] okUnit
+  | .writeU16 _ v => evFs "write_u16" [.int .u16 v] okUnit
+  | .writeAll n => evFs "write_all" [.int .usize n] okUnit
+  | .syncAll => evFs "sync_all" [] okUnit
+  | .setLen n => evFs "set_len" [.int .u64 n] okUnit
+  | .storeVersion v => evStore (.str "version") (.int .u16 v) (ordering "Relaxed")
+
+/-- is a logged event a STATE-CHANGING operation (on the file: create / write / sync / set_len / mkdir; on the
+    mapping: a store)?  Queries (open, read, errno, mmap, metadata, stream_position) are not. -/
+def isMutEv : Value → Bool
+  | .ext "fs" [.str name, _, _] =>
+    name == "create_dir_all" || name == "create" || name == "write_u32" || name == "write_u16" ||
+    name == "write_all" || name == "sync_all" || name == "set_len"
+  | .ext "store" _ => true
+  | _ => false
+
+/-- the answers `ShmReader::new` actually consumes on the path state (cf. `openAnswers`; no mapping limit) -/
+def openUsed (fd : Nat) : FileState → List Value
+  | .missing => [.int .infer (-1), .int .infer ENOENT]
+  | .directory => [.int .infer fd, .int .infer (-1), .int .infer EISDIR]
+  | .file bs =>
+    [.int .infer fd, .int .infer (readRet bs)] ++
+    (if bs.length < HEADER_SIZE then [] else
+      [headerValue (parseHeader bs)] ++
+      (match checkHeader (parseHeader bs) with | .ok _ => [addr "segment"] | .error _ => []))
+
+/-- the answers of a `wipe` in which every operation succeeds (`stream_position` = 72 bytes written) -/
+def wipeAnswers (hasParent : Bool) : List Value :=
+  (if hasParent then [okUnit] else []) ++
+  [.enumv "Ok" [fileObj], okUnit, okUnit, okUnit, okUnit, okUnit, okUnit, .enumv "Ok" [.int .u64 SEGMENT_SIZE], okUnit]
+
+/-- What the environment answers during `ShmWriter::new(path)` on the path state `st`, every operation
+    succeeding: the open path of `ShmReader::new` (`openUsed`); then for a usable segment `fs::metadata` (the
+    file length) and, if the file is shorter than the segment, the open-for-write and `set_len`; for anything
+    else the operations of `wipe`; finally `nix::fcntl::open` and `mmap` of `mmap_segment_at`. -/
+def newAnswers (fd : Nat) (hasParent : Bool) (st : FileState) : List Value :=
+  openUsed fd st ++
+  (if (Crash.fileAOf st).usable then
+    [.enumv "Ok" [.ext "Metadata" [.int .u64 (Crash.fileAOf st).len]]] ++
+    (if (Crash.fileAOf st).len < SEGMENT_SIZE then [.enumv "Ok" [fileObj], okUnit] else [])
+   else wipeAnswers hasParent) ++
+  [.enumv "Ok" [.int .i32 fd], .enumv "Ok" [addr "segment"]]
+
 end ClockBound.Rs.EmbedShm
 
 namespace ClockBound.Rs
@@ -172,4 +225,9 @@ namespace ClockBound.Rs
 def Outcome.noLog : Outcome → Outcome
   | .ok v s _ => .ok v s []
   | o => o
+
+/-- for a call that returned `Ok(v)`: `v` and the events selected by `keep`, in order -/
+def Outcome.okWith (keep : Value → Bool) : Outcome → Option (Value × List Value)
+  | .ok (.enumv "Ok" [v]) _ l => some (v, l.filter keep)
+  | _ => none
 end ClockBound.Rs
